@@ -16,6 +16,7 @@ import (
 	"net/url"
 	"strings"
 	"sync"
+	"sync/atomic"
 	"time"
 
 	"github.com/notaryproject/notation-core-go/revocation"
@@ -129,6 +130,17 @@ func (p *revoPKI) responder(issuer *Issued, kind string) *Issued {
 		s.EKU = []x509.ExtKeyUsage{x509.ExtKeyUsageCodeSigning}
 	case "noeku-ext":
 		s.KeyID = "ec256-33"
+	case "named-as-issuer":
+		// issued by the CA to a subject carrying the CA's own name (self-issued in the sense of RFC 5280 3.2), another key, no
+		// OCSP-signing usage: not the issuer's certificate, not an authorised delegate
+		s.CN = issuer.Spec.CN
+		s.KeyID = "ec256-35"
+		s.EKU = []x509.ExtKeyUsage{x509.ExtKeyUsageCodeSigning}
+	case "named-as-issuer-ca":
+		s.CN = issuer.Spec.CN
+		s.KeyID = "ec256-36"
+		s.BC, s.IsCA = true, true
+		s.KU = x509.KeyUsageCertSign | x509.KeyUsageCRLSign | x509.KeyUsageDigitalSignature
 	case "foreign":
 		s.KeyID = "ec256-34"
 		s.EKU = []x509.ExtKeyUsage{x509.ExtKeyUsageOCSPSigning}
@@ -156,7 +168,7 @@ type ocspCtx struct {
 var ocspAlphabet = []string{
 	"good", "revoked", "unknown",
 	"good-delegate-eku", "revoked-delegate-eku", "good-delegate-eku-and-more",
-	"good-delegate-noeku", "good-delegate-noeku-ext", "good-self-signed-by-leaf", "good-embedded-issuer",
+	"good-delegate-noeku", "good-delegate-noeku-ext", "good-delegate-noeku-named-as-issuer", "good-delegate-noeku-named-as-issuer-ca", "good-self-signed-by-leaf", "good-embedded-issuer",
 	"good-self-claims-issuer-id", "good-sibling-claims-issuer-id", "good-delegate-eku-claims-issuer-id",
 	"good-unrelated-key", "good-embedded-foreign",
 	"good-expired", "good-no-nextupdate", "revoked-expired", "good-thisupdate-future",
@@ -200,6 +212,12 @@ func (c *ocspCtx) behaviour(label string) *httpBehaviour {
 		spec.Signer, spec.Embed = d, d.Cert
 	case "good-delegate-noeku-ext":
 		d := c.pki.responder(c.issuer, "noeku-ext")
+		spec.Signer, spec.Embed = d, d.Cert
+	case "good-delegate-noeku-named-as-issuer":
+		d := c.pki.responder(c.issuer, "named-as-issuer")
+		spec.Signer, spec.Embed = d, d.Cert
+	case "good-delegate-noeku-named-as-issuer-ca":
+		d := c.pki.responder(c.issuer, "named-as-issuer-ca")
 		spec.Signer, spec.Embed = d, d.Cert
 	case "revoked-delegate-noeku-inv-after":
 		d := c.pki.responder(c.issuer, "noeku")
@@ -422,7 +440,7 @@ var crlAlphabet = []string{
 	"delta-bad-indicator", "delta-wrong-signer", "delta-expired", "delta-no-nextupdate", "delta-crit-unknown-ext", "delta-lists-cert", "base-lists-delta-removes",
 	"base-no-number-delta", "delta-no-number", "both-no-number", "base-no-number",
 	"fetch-error", "fetch-error-timeout", "fetch-error-deadline", "fetch-error-canceled", "fetch-error-cache-miss", "fetch-error-eof", "entry-crit-ext", "entry-crit-ext-other-serial", "hold", "hold-then-remove",
-	"many-entries-delta-entries", "many-entries-delta-lists-cert", "clean-base-advertises-delta", "delta-ok-base-silent",
+	"many-entries-delta-entries", "many-entries-delta-lists-cert", "clean-base-advertises-delta", "delta-ok-base-silent", "clean-base-advertises-ldap-delta", "clean-base-advertises-ldap-and-https-delta",
 }
 
 var crlCore = []string{"clean", "lists-cert", "wrong-signer", "expired", "no-nextupdate", "crit-unknown-ext", "delta-ok", "delta-n5-i4", "delta-n7-i6", "delta-lists-cert", "fetch-error", "entry-crit-ext"}
@@ -479,6 +497,10 @@ func (c *crlCtx) behaviour(label string) *fetchBehaviour {
 		}
 		delta = mkDelta()
 		delta.Entries = []EntrySpec{entry(1, c.now.Add(-time.Hour))}
+	case "clean-base-advertises-ldap-delta":
+		base.Freshest = []string{"ldap://directory.test/cn=delta?deltaRevocationList"}
+	case "clean-base-advertises-ldap-and-https-delta":
+		base.Freshest = []string{"ldap://directory.test/cn=delta", "https://delta.secure.test/d.crl"}
 	case "clean-base-advertises-delta":
 		// the base list carries a freshest-CRL extension, the bundle has no delta (a fetcher or cache that delivers base lists only)
 		base.Freshest = []string{"http://delta.undelivered.test/d.crl"}
@@ -786,6 +808,12 @@ func buildRevoChain(cc *chainCase) []*Issued {
 	return out
 }
 
+// chainPanicOnly: run revocation cases for their termination only (C09)
+var (
+	chainPanicOnly      bool
+	chainPanicOnlyCount atomic.Int64
+)
+
 // servableOverHTTP: can this scripted bundle be delivered as it is by the real fetcher downloading from the scripted
 // transport? (a failure, a bundle whose delta the base does not advertise, or a base advertising a delta nobody serves cannot:
 // such a URL is served as a 404 / fails by itself, abstractly a failed download)
@@ -970,6 +998,10 @@ func runChainCase(r *Runner, cc chainCase, idx int) {
 						if b.bundle.DeltaCRL != nil {
 							tr.m[b.deltaURL] = &httpBehaviour{body: b.bundle.DeltaCRL.Raw}
 						}
+					} else if b != nil && b.err == nil && b.panicV == nil && b.bundle != nil && b.bundle.BaseCRL != nil && b.bundle.DeltaCRL == nil {
+						// a base list advertising a delta that nobody serves (or that sits at a location the fetcher cannot reach): the base
+						// is delivered, the download of the bundle fails on the delta by itself
+						tr.m[u] = &httpBehaviour{body: b.bundle.BaseCRL.Raw}
 					} else {
 						tr.m[u] = &httpBehaviour{status: 404, body: []byte("no such list")}
 					}
@@ -1029,6 +1061,18 @@ func runChainCase(r *Runner, cc chainCase, idx int) {
 	impl := map[string]any{}
 	c := &Case{ID: fmt.Sprintf("%s-%d", cc.label, idx), K: "validate", In: in, Impl: impl, Class: cc.label, Tags: cc.tags,
 		Replay: map[string]any{"chain_pem": pemChain(chain), "levels": describeLevels(cc.levels), "mode": cc.mode, "purpose": purposeName, "st_zero": cc.stZero, "checked_first_sibling_serial": cc.warmupSerial, "response_content_length": tr.lengthMode}}
+	if chainPanicOnly {
+		// C09 runs these cases for one thing only: the call returns
+		chainPanicOnlyCount.Add(1)
+		if panicked != nil {
+			c.K, c.local, c.localClause = "total", true, "panic_on_the_calling_goroutine"
+			c.In = map[string]any{"target": "revocation-behaviour", "label": cc.label}
+			c.Impl = map[string]any{"outcome": "panic", "_detail": fmt.Sprint(panicked)}
+			c.Class = "revocation-behaviour/panic"
+			r.Submit(c)
+		}
+		return
+	}
 	if panicked != nil {
 		impl["panic"] = fmt.Sprint(panicked)
 		r.Submit(c)
